@@ -77,6 +77,10 @@ def run(ctx, chk, tier):
     chk.trusted |= {"C01 decision table", "guarded quotient where defined"}
     chk.assumptions = ["easy counts are non-negative integers", "exact real arithmetic"]
     declared_counts_stored(ctx, chk)
+    # a swapped object exchanges the declared easy counts together with the score arrays (R08.1): the equivalence with the materialised object
+    # is claimed for derived objects too
+    from . import c08 as _c08
+    _c08.swap_rule(ctx, chk)
     # R09.1 coefficients of the easy counts
     for sc, ec in GAMMAS:
         tab = derive_cm_table(ctx, chk, sc, ec, rule="R09.1")
